@@ -219,7 +219,7 @@ _COMMON_NOTE = ('Trusted: Lean kernel (axioms propext, Classical.choice, Quot.so
 MANIFEST_TEXT = {
     'C01': dict(
         text='Theorem for every configuration with ring capacity >= 1, every event list (frames with any motion bits, refused starts of all three kinds, bad frames, resets, test requests) and every fault placement except failing motion-sink writes: the trace of the MotionProcessor model is accepted by the C01/C02 monitor - every recording is a consecutive ascending id run, recordings never overlap, and each starts at max(trigger+1-K, 1+last id of the previous recording) (tiling). Proved by a product invariant of model state, ring ghost state and monitor state; the ring part rests on the C19 refinement. The monitor itself is proved sound against a plain list specification for ANY trace (Props.C01Spec.monitor_sound: acceptance implies every recording is a List.range run and the concatenation of all recordings is strictly increasing), and the composed pipeline model inherits it from socket bytes to file contents (pipe_c01).',
-        note=_COMMON_NOTE + 'the executable monitor that states the property is part of the trusted reading of the statement (lean/TR/ProcMon.lean, lean/TR/ThrMon.lean).',
+        note=_COMMON_NOTE + 'the executable monitor used on real traces is proved equivalent to (C01: sound for) a monitor-free list-level statement for every trace (Props/C01Spec, C03Spec, C12Spec), so it is no longer part of the trusted reading.',
         technique='Lean 4 proof (product invariant of model x ghost x monitor, induction over the event list) + differential correspondence',
         design_ref='DESIGN.md 5/C01'),
     'C02': dict(
@@ -229,7 +229,7 @@ MANIFEST_TEXT = {
         design_ref='DESIGN.md 5/C02'),
     'C03': dict(
         text='Theorem for all motion patterns, refused starts, bad frames, resets, all 0 <= minF <= maxF: a recording ends exactly at the first post-trigger frame p with p >= min(maxF, L(p)-1+minF); corollaries: post-trigger length < maxF while open, sustained motion yields max-length recordings that tile. The length monitor is proved EQUIVALENT, for any trace, to a monitor-free rule (Props.C03Spec.monitor_exact: at every frame of every recording, the recording is stopped at that frame iff the frame count since the trigger has reached min(maxF, index of the last motion frame - 1 + minF)); c03_recording_bounds: with 1 <= minF <= maxF a stopped recording has minF..maxF post-trigger frames, exactly min(maxF, L-1+minF).',
-        note=_COMMON_NOTE + 'the executable monitor that states the property is part of the trusted reading of the statement (lean/TR/ProcMon.lean, lean/TR/ThrMon.lean).',
+        note=_COMMON_NOTE + 'the executable monitor used on real traces is proved equivalent to (C01: sound for) a monitor-free list-level statement for every trace (Props/C01Spec, C03Spec, C12Spec), so it is no longer part of the trusted reading.',
         technique='Lean 4 proof (product invariant of model x ghost x monitor, induction over the event list) + differential correspondence',
         design_ref='DESIGN.md 5/C03'),
     'C04': dict(
@@ -239,7 +239,7 @@ MANIFEST_TEXT = {
         design_ref='DESIGN.md 5/C04'),
     'C12': dict(
         text='Theorem for every event list over {frame, bad frame, reset, test request} and every fault placement on every call of every sink, continuous recorder on or off: each of the three sinks sees a call sequence accepted by the protocol automaton and the GetHistory slice expression never panics; recovery theorem: from every reachable state max(trigger-frames,1) fault-free motion frames lead to a successful write on the motion sink.',
-        note=_COMMON_NOTE + 'the executable monitor that states the property is part of the trusted reading of the statement (lean/TR/ProcMon.lean, lean/TR/ThrMon.lean).',
+        note=_COMMON_NOTE + 'the executable monitor used on real traces is proved equivalent to (C01: sound for) a monitor-free list-level statement for every trace (Props/C01Spec, C03Spec, C12Spec), so it is no longer part of the trusted reading.',
         technique='Lean 4 proof (product invariant of model x ghost x monitor, induction over the event list) + differential correspondence',
         design_ref='DESIGN.md 5/C12'),
     'C13': dict(
